@@ -63,6 +63,23 @@ def r1(ctx):
         if not untouched:
             detail_extra = " (the saved copy is modified before it is appended)"
         detail = "for _ in %s { layers.extend(%s) }" % (pretty(it), short(pretty(arg), 40)) + ("" if untouched else " after modifying the saved copy")
+    # .. and that is all that happens to the layer list: nothing else reorders, drops or replaces entries before it is stored
+    lh_ = P.get("layers")
+    other_muts = []
+    for x in walk(fn["body"]):
+        if x.get("k") == "mcall" and e4.local_hid(x["recv"]) == lh_ and (c.tya(x["recv"]) or "").startswith("&mut") and not (ext and any(y is x for y in walk(ext[0]))):
+            other_muts.append(x["name"])
+        if x.get("k") in ("assign", "assignop"):
+            l_ = strip(x["l"])
+            while l_ is not None and l_.get("k") in ("index", "field"):
+                l_ = strip(l_["b"])
+            if l_ is not None and e4.local_hid(l_) == lh_:
+                other_muts.append("assignment")
+        if x.get("k") == "ref" and x.get("mut") and e4.local_hid(x["x"]) == lh_:
+            other_muts.append("&mut layers")
+    ctx.check("R10.1", "layers-only-extended", not other_muts, "layer-list-changed-by:" + ",".join(sorted(set(other_muts))), c.loc(fn),
+              "the unrolled layer list is the original followed by loops-1 clones of it, in that order",
+              "Feedback::create also changes the layer list by %s: position l + i*length must hold the i-th copy of layer l" % sorted(set(other_muts)))
     ctx.check("R10.1", "extend-with-original-clones", ok, "extension:" + short(detail, 90), c.loc(fn, ext[0]) if ext else c.loc(fn), "for _ in 1..loops { layers.extend(original.clone()) }",
               "the unrolled copies are produced by `%s`; every repetition must be a clone of the original layer list, loops-1 times" % detail)
     # coupled: for l in 0..length: the group {l + i*length | i in 0..loops}, built by an inner loop with push or by map/collect
